@@ -413,6 +413,8 @@ pub const BLANKS: [&str; 24] = [
     "\u{205f}", "\u{3000}", "\u{200b}", "\u{feff}", "\0", "\x1f", "\x1c", "  ",
 ];
 
+const KEY_TERM_WEIGHT: usize = 30;
+
 fn observe_key(o: &mut O, secret: &str, ymd: (i32, u32, u32), region: &str, service: &str, tag: &str) {
     let date = match NaiveDate::from_ymd_opt(ymd.0, ymd.1, ymd.2) {
         Some(d) => d,
@@ -443,7 +445,7 @@ fn observe_key(o: &mut O, secret: &str, ymd: (i32, u32, u32), region: &str, serv
         Ok(Err(_)) => "KTooLong".to_string(),
         Ok(Ok((back, a, b, c, d, sc))) => format!("(KOk {} {} {} {} {} {})", cb(back), cb(a), cb(b), cb(c), cb(d), cbool(*sc)),
     };
-    let coq = format!(
+    let mut coq = format!(
         "KeyCase {} {} {} {} {} {} {}",
         cb(secret.as_bytes()),
         cz(ymd.0 as i128),
@@ -453,6 +455,13 @@ fn observe_key(o: &mut O, secret: &str, ymd: (i32, u32, u32), region: &str, serv
         cb(service.as_bytes()),
         term
     );
+    // Scheduling hint only: the orchestrator spreads cases over its coqc workers by the length of
+    // the term (one unit per 400 characters), and a key case costs about 0.2 s of SHA-256 in Coq
+    // (some thirty compression calls) although its term is short.  Trailing blanks make its
+    // weight comparable to other hashing cases so that key cases are not all evaluated by one worker.
+    while coq.len() < KEY_TERM_WEIGHT * 400 {
+        coq.push(' ');
+    }
     let input = format!(
         "key s={} y={} m={} d={} rg={} sv={}",
         hexs(secret.as_bytes()),
